@@ -5,7 +5,7 @@
    present structures (C07_free_pins_exact); the matrix of a circuit does not depend on how it was declared
    (C07_fresh_equivalence). *)
 From Coq Require Import List Arith Bool.
-From Lekkersim Require Import Field Matrix Base Network Solve SolveProofs SolveComplete Wiring WiringProofs WiringInv WiringRep WiringRep2 WiringFree.
+From Lekkersim Require Import Field Matrix Base Network Solve SolveProofs SolveComplete Wiring WiringProofs WiringInv WiringRep WiringRep2 WiringFree WiringWF.
 Import ListNotations.
 
 (* solving is a query on the wiring state *)
@@ -44,6 +44,16 @@ Theorem C07_free_pins_exact ops p :
    nmem (fst p) (w_structs s) = true /\ In p (s_pins (getst s (fst p))) /\ ~ exists w, linked s p w).
 Proof. exact (free_pins_exact ops p). Qed.
 
+(* the circuit a reachable state denotes is well formed — one connection per pin, all pins of the present structures
+   distinct, every connection end a pin of a present structure: exactly the checks Solve.solve makes before eliminating,
+   so after any history the solve of the remaining circuit can only be undefined for a singular inner system *)
+Theorem C07_denoted_circuit_wellformed ops :
+  let s := run w_empty ops in
+  NoDup (map fst (w_conns s) ++ map snd (w_conns s)) /\
+  NoDup (present_pins' s) /\
+  (forall p, In p (map fst (w_conns s) ++ map snd (w_conns s)) -> In p (present_pins' s)).
+Proof. exact (denoted_circuit_wellformed ops). Qed.
+
 Theorem C07_invariant_everywhere ops : Rep (run w_empty ops).
 Proof. exact (Rep_reachable ops). Qed.
 
@@ -67,6 +77,7 @@ Print Assumptions C07_fresh_equivalence.
 Print Assumptions C07_tables_consistent.
 Print Assumptions C07_invariant_everywhere.
 Print Assumptions C07_free_pins_exact.
+Print Assumptions C07_denoted_circuit_wellformed.
 
 Example C07_history_runs :
   w_free (run w_empty [Add 0 2; Add 1 2; Connect (0,1) (1,0); Cut 1; Add 1 2; Connect (1,1) (0,1)])
